@@ -2,7 +2,7 @@
    harness/src/bin/c20.rs).  `is_keeper e` / `is_config_keeper e`: the caller is a member, has the role's
    bit and the role is enabled in the store.  All statements are for ALL environments, keys, values,
    updatable sets, configurations and buffers. *)
-From GV Require Import lib.Base C20.Model C20.Proofs.
+From GV Require Import lib.Base gen.C19Tables C20.Model C20.Proofs.
 From Coq Require Import String.
 Open Scope string_scope.
 Open Scope Z_scope.
@@ -74,6 +74,17 @@ Lemma c20_mk_role_not_enabled_refuted :
   exists e k, signed e = true /\ is_config_keeper e = true /\
     update_one e true (fun _ => true) (fun _ => true) (fun _ => 0) k 5 = Err E_PRECOND.
 Proof. exists (mkEnv Disabled Enabled true false true true), "funding_fee_min_factor_per_second". repeat split. Qed.
+
+(* tie to the source: in the access table REGENERATED from lib.rs the three entrypoints carry exactly the
+   attribute the model starts with — ensure_has_any_role([MARKET_KEEPER, MARKET_CONFIG_KEEPER]) on a Signer *)
+Definition entry_guards : list (string * guard) :=
+  map (fun i => (i_name i, i_guard i))
+      (filter (fun i => String.eqb (i_prog i) "store" && String.prefix "update_market_config" (i_name i)) instructions).
+Theorem c20_entry_guards :
+  entry_guards = [("update_market_config", GAny ["MARKET_KEEPER"; "MARKET_CONFIG_KEEPER"]);
+                  ("update_market_config_flag", GAny ["MARKET_KEEPER"; "MARKET_CONFIG_KEEPER"]);
+                  ("update_market_config_with_buffer", GAny ["MARKET_KEEPER"; "MARKET_CONFIG_KEEPER"])].
+Proof. vm_compute. reflexivity. Qed.
 
 (* ---- non-vacuity ---- *)
 Example c20_example_config_keeper :
